@@ -1056,6 +1056,14 @@ def sub_addrstr(case):
                  lambda: Output(VAL, address=ao, network=net) if ao is not None else raise_(ao_exc)),
                 ('add_output(address=Address.parse(str,network))',
                  lambda: _tx_out(net, address=ao) if ao is not None else raise_(ao_exc))]
+        if not rd:
+            # the string handed over TOGETHER with a locking script / a hash and type (as providers and caches do):
+            # redundant attributes must not switch the validation of the string off
+            fixed = bytes.fromhex('0014' + '5a' * 20)
+            ways += [('Output(address=str,lock_script)', lambda: Output(VAL, address=s, lock_script=fixed, network=net)),
+                     ('add_output(address=str,lock_script)', lambda: _tx_out(net, address=s, lock_script=fixed)),
+                     ('Output(address=str,public_hash,script_type)',
+                      lambda: Output(VAL, address=s, public_hash=b'\x5a' * 20, script_type='p2wpkh', network=net))]
         for way, f in ways:
             obs = _observe(f)
             acc.n += 1
